@@ -147,6 +147,19 @@ TGetRet ==
     /\ Stutter /\ UNCHANGED <<closed, sUnsynced, sDirty, sNeed>>
 
 ----------------------------------------------------------------------------
+(* btree iterator (C04): every returned (key rank, value id) must be the model's answer *)
+
+TCurOpen  == IsEvent("CurOpen") /\ ~closed /\ IsBtree(Ev.c) /\ ~cur.open
+             /\ cur' = [open |-> TRUE, c |-> Ev.c, t |-> "start", k |-> 0]
+             /\ CurOthers /\ UNCHANGED trace /\ Advance /\ UNCHANGED closed
+TCurClose == IsEvent("CurClose") /\ CurClose /\ Advance /\ UNCHANGED closed
+TCurSeek  == IsEvent("CurSeek") /\ CurSeek(Ev.k) /\ Advance /\ UNCHANGED closed
+TCurFirst == IsEvent("CurFirst") /\ CurFirst /\ Advance /\ UNCHANGED closed
+TCurLast  == IsEvent("CurLast") /\ CurLast /\ Advance /\ UNCHANGED closed
+TCurNext  == IsEvent("CurNext") /\ cur.open /\ Ev.res = NextRes /\ CurNext /\ Advance /\ UNCHANGED closed
+TCurPrev  == IsEvent("CurPrev") /\ cur.open /\ Ev.res = PrevRes /\ CurPrev /\ Advance /\ UNCHANGED closed
+
+----------------------------------------------------------------------------
 (* log worker *)
 
 TPop ==
@@ -173,7 +186,7 @@ TEndRecord ==
            /\ nextRid' = nextRid + 1
            /\ logs' = AppendRec([rid |-> nextRid, h |-> 0, cid |-> 0, w |-> <<>>])
            /\ UNCHANGED <<hist, logical, calls, queue, nextCid, covl, lw, rpos, lovl, cw, lastEnacted,
-                          tabs, dtabs, flushedCq, applied, durable, mode, rcv, ncrash, naux, lastRec, rdr, trace>>)
+                          tabs, dtabs, flushedCq, applied, durable, mode, rcv, ncrash, naux, lastRec, rdr, cur, trace>>)
     /\ Advance /\ UNCHANGED closed
 
 TCleanCovl ==
@@ -217,7 +230,7 @@ TEnactEnd ==
     /\ applied' = Max(applied, cw.rec.h)
     /\ cw' = [cw EXCEPT !.pc = "written", !.todo = {}]
     /\ UNCHANGED <<hist, logical, calls, queue, nextCid, covl, lw, nextRid, logs, rpos, lovl,
-                   dtabs, flushedCq, durable, mode, rcv, ncrash, naux, lastRec, rdr, trace>>
+                   dtabs, flushedCq, durable, mode, rcv, ncrash, naux, lastRec, rdr, cur, trace>>
     /\ Advance /\ UNCHANGED closed
 
 TEndRead ==
@@ -239,7 +252,7 @@ TTablesFlushed ==
     /\ IF mode = "open" /\ NumCq > flushedCq THEN FlushTables
        ELSE IF mode = "open"
        THEN dtabs' = tabs /\ UNCHANGED <<hist, logical, calls, queue, nextCid, covl, lw, nextRid, logs, rpos, lovl, cw,
-                   lastEnacted, tabs, flushedCq, applied, durable, mode, rcv, ncrash, naux, lastRec, rdr, trace>>
+                   lastEnacted, tabs, flushedCq, applied, durable, mode, rcv, ncrash, naux, lastRec, rdr, cur, trace>>
        ELSE Stutter
     /\ Advance /\ UNCHANGED closed
 
@@ -261,10 +274,10 @@ TLogDelete == IsEvent("LogDelete") /\ ~closed /\ Stutter /\ Advance /\ UNCHANGED
 TClosed ==
     /\ IsEvent("Closed") /\ ~closed /\ mode = "open"
     /\ queue = <<>> /\ LwIdle /\ CwIdle /\ ~HasApp
-    /\ closed' = TRUE
+    /\ closed' = TRUE /\ ~cur.open
     /\ rcv' = [rcv EXCEPT !.any = FALSE]
     /\ UNCHANGED <<hist, logical, calls, queue, nextCid, covl, lw, nextRid, logs, rpos, lovl, cw, lastEnacted,
-                   tabs, dtabs, flushedCq, applied, durable, mode, ncrash, naux, lastRec, rdr, trace>>
+                   tabs, dtabs, flushedCq, applied, durable, mode, ncrash, naux, lastRec, rdr, cur, trace>>
     /\ Advance
 
 \* replay inside Db::open after a clean close
@@ -275,7 +288,7 @@ TClosedReplay ==
     /\ IF Rec[l].e = "EnactEnd"
        THEN /\ lastEnacted' = Arg(1) /\ rcv' = [rcv EXCEPT !.any = TRUE]
             /\ UNCHANGED <<hist, logical, calls, queue, nextCid, covl, lw, nextRid, logs, rpos, lovl, cw, tabs, dtabs,
-                           flushedCq, applied, durable, mode, ncrash, naux, lastRec, rdr, trace>>
+                           flushedCq, applied, durable, mode, ncrash, naux, lastRec, rdr, cur, trace>>
        ELSE Stutter
     /\ Advance /\ UNCHANGED closed
 
@@ -289,7 +302,7 @@ TReopened ==
     /\ lastEnacted' = IF rcv.any THEN lastEnacted ELSE 1
     /\ nextCid' = 0
     /\ durable' = Len(hist) /\ applied' = Len(hist)
-    /\ UNCHANGED <<hist, logical, calls, queue, lw, cw, mode, rcv, ncrash, naux, lastRec, rdr, trace>>
+    /\ UNCHANGED <<hist, logical, calls, queue, lw, cw, mode, rcv, ncrash, naux, lastRec, rdr, cur, trace>>
     /\ Advance
 
 \* the process died here (the harness took the image at this point of the event stream)
@@ -300,7 +313,7 @@ TCrash ==
     /\ flushedCq' = 0 /\ rpos' = 0
     /\ rcv' = [f |-> 0, r |-> 0, any |-> FALSE, pre |-> 0, dmg |-> "none"]
     /\ closed' = FALSE
-    /\ UNCHANGED <<hist, logical, calls, nextRid, logs, lastEnacted, tabs, dtabs, applied, durable, ncrash, naux, lastRec, rdr, trace>>
+    /\ UNCHANGED <<hist, logical, calls, nextRid, logs, lastEnacted, tabs, dtabs, applied, durable, ncrash, naux, lastRec, rdr, cur, trace>>
     /\ Advance
 
 \* events of the replay inside Db::open of the image
@@ -309,7 +322,7 @@ TReplayEnact ==
     /\ lastEnacted' = Arg(1)
     /\ rcv' = [rcv EXCEPT !.any = TRUE]
     /\ UNCHANGED <<hist, logical, calls, queue, nextCid, covl, lw, nextRid, logs, rpos, lovl, cw, tabs, dtabs,
-                   flushedCq, applied, durable, mode, ncrash, naux, lastRec, rdr, trace>>
+                   flushedCq, applied, durable, mode, ncrash, naux, lastRec, rdr, cur, trace>>
     /\ Advance /\ UNCHANGED closed
 
 TReplayOther ==
@@ -340,7 +353,7 @@ TRecovered ==
     /\ nextRid' = IF rcv.any THEN lastEnacted + 1 ELSE 1
     /\ lastEnacted' = IF rcv.any THEN lastEnacted ELSE 1
     /\ mode' = "open"
-    /\ UNCHANGED <<calls, queue, nextCid, covl, lw, rpos, lovl, cw, flushedCq, rcv, ncrash, naux, rdr, trace>>
+    /\ UNCHANGED <<calls, queue, nextCid, covl, lw, rpos, lovl, cw, flushedCq, rcv, ncrash, naux, rdr, cur, trace>>
     /\ Advance /\ UNCHANGED closed
 
 \* injected background error (store_err)
@@ -348,7 +361,7 @@ TStoreErr ==
     /\ IsEvent("StoreErr") /\ mode = "open"
     /\ mode' = "err"
     /\ UNCHANGED <<hist, logical, calls, queue, nextCid, covl, lw, nextRid, logs, rpos, lovl, cw, lastEnacted,
-                   tabs, dtabs, flushedCq, applied, durable, rcv, ncrash, naux, lastRec, rdr, trace>>
+                   tabs, dtabs, flushedCq, applied, durable, rcv, ncrash, naux, lastRec, rdr, cur, trace>>
     /\ Advance /\ UNCHANGED closed
 
 \* events without a counterpart in this module (worker protocol, locks)
@@ -361,6 +374,7 @@ TIgnored ==
 
 TraceNext ==
     \/ TCommit \/ TReject \/ TObs \/ TCounts \/ TGetCall \/ TGetRet
+    \/ TCurOpen \/ TCurClose \/ TCurSeek \/ TCurFirst \/ TCurLast \/ TCurNext \/ TCurPrev
     \/ TPop \/ TBeginRecord \/ TAuxBegin \/ TEndRecord \/ TCleanCovl
     \/ TLogSync \/ TLogQueued
     \/ TEnactBegin \/ TTabWrite \/ TValidated \/ TEnactEnd \/ TEndRead \/ TLogEof
